@@ -105,8 +105,9 @@ func props() map[string]Prop {
 				{Name: "seq", Pkg: "internal/upload", Harness: "internal_upload", Run: "^TestVerifUploadSeq$", Instrument: uploadInstr, Timeout: 30 * time.Minute},
 				{Name: "mode", Pkg: "internal/upload", Harness: "internal_upload", Run: "^TestVerifC02Mode$", Instrument: uploadInstr, Timeout: 30 * time.Minute},
 				{Name: "public", Pkg: "counter", Harness: "counter_public", Run: "^TestVerifPublic$", Timeout: 30 * time.Minute},
+				{Name: "rotate", Pkg: "internal/counter", Harness: "internal_counter", Run: "^TestVerifC02Rotate$", Instrument: counterInstr, Timeout: 30 * time.Minute},
 			},
-			Assume: []string{"start times are passed explicitly (virtual calendar 2019-2031)"},
+			Assume: []string{"start times are passed explicitly (virtual calendar 2019-2031)", "for a process that is already running when the mode file changes only the creation of counter files is judged (the API reads the mode file when it opens or rotates a file, not on every increment)"},
 		},
 		{
 			ID: "C08", Level: "fault_enumeration",
